@@ -19,11 +19,11 @@ struct stream {
 	size_t size;
 	uint8_t *stream;
 	const uint8_t *start;
-	uint16_t w_head;
-	uint16_t r_head;
+	size_t w_head;
+	size_t r_head;
 };
 
-struct stream *init_stream(uint16_t size)
+struct stream *init_stream(size_t size)
 {
 	struct stream *s = lrtr_calloc(sizeof(struct stream), 1);
 
@@ -52,7 +52,7 @@ void free_stream(struct stream *s)
 	lrtr_free(s);
 }
 
-void write_stream(struct stream *s, void *data, uint16_t len)
+void write_stream(struct stream *s, void *data, size_t len)
 {
 	memcpy(s->stream + s->w_head, data, len);
 	s->w_head += len;
@@ -68,7 +68,7 @@ uint8_t read_stream(struct stream *s)
 }
 
 /* cppcheck-suppress unusedFunction */
-void read_n_bytes_stream(uint8_t *buff, struct stream *s, uint16_t len)
+void read_n_bytes_stream(uint8_t *buff, struct stream *s, size_t len)
 {
 	if ((s->r_head + len) >= s->size)
 		len = (s->size - s->r_head) - 1;
@@ -76,7 +76,7 @@ void read_n_bytes_stream(uint8_t *buff, struct stream *s, uint16_t len)
 	s->r_head += len;
 }
 
-void read_stream_at(uint8_t *buff, struct stream *s, uint16_t start, uint16_t len)
+void read_stream_at(uint8_t *buff, struct stream *s, size_t start, size_t len)
 {
 	if (start + len > s->size)
 		len = s->size - start;
